@@ -56,6 +56,7 @@ REVERT_EXPECT: Dict[str, List[Tuple[str, str]]] = {
     "0e298d0": [("C11", "K2.owner")],
     "99289b5": [("C11", "K2.owner")],
     "00a4520": [("C07", "K8.support-change")],
+    "a1543d3": [("C10", "K9.nested-control-replay")],
 }
 
 
